@@ -1,0 +1,196 @@
+//! Verification hooks (only compiled with the `verif_hooks` cargo feature).
+//!
+//! A thin, public wrapper around the crate-private [`CircuitBuilder`], so that external
+//! conformance harnesses can drive sequences of gate requests directly, without going through the
+//! language front end. Nothing in here changes the behaviour of the crate.
+
+use std::collections::HashMap;
+
+use crate::{
+    circuit::{Circuit, CircuitBuilder, CircuitBuilderOptions, GateIndex, PanicReason},
+    token::MetaInfo,
+};
+
+/// Public handle on a [`CircuitBuilder`].
+///
+/// Wire `0` is constant false, wire `1` is constant true, wires `2..2+n` are the `n` input bits
+/// (all parties concatenated), later wires are gates in the order in which they were pushed.
+#[derive(Debug, Clone)]
+pub struct Builder(CircuitBuilder);
+
+/// An opaque snapshot of the panic record (including its condition cache).
+#[derive(Debug, Clone)]
+pub struct PanicSnapshot(crate::circuit::CachedPanicResult);
+
+impl Builder {
+    /// Creates a builder for the given parties, with or without gate de-duplication.
+    pub fn new(input_gates: Vec<usize>, cache_gates: bool) -> Self {
+        Self(CircuitBuilder::new(
+            input_gates,
+            HashMap::new(),
+            CircuitBuilderOptions { cache_gates },
+        ))
+    }
+
+    /// See `CircuitBuilder::push_xor`.
+    pub fn push_xor(&mut self, x: GateIndex, y: GateIndex) -> GateIndex {
+        self.0.push_xor(x, y)
+    }
+
+    /// See `CircuitBuilder::push_and`.
+    pub fn push_and(&mut self, x: GateIndex, y: GateIndex) -> GateIndex {
+        self.0.push_and(x, y)
+    }
+
+    /// See `CircuitBuilder::push_not`.
+    pub fn push_not(&mut self, x: GateIndex) -> GateIndex {
+        self.0.push_not(x)
+    }
+
+    /// See `CircuitBuilder::push_or`.
+    pub fn push_or(&mut self, x: GateIndex, y: GateIndex) -> GateIndex {
+        self.0.push_or(x, y)
+    }
+
+    /// See `CircuitBuilder::push_eq`.
+    pub fn push_eq(&mut self, x: GateIndex, y: GateIndex) -> GateIndex {
+        self.0.push_eq(x, y)
+    }
+
+    /// See `CircuitBuilder::push_mux`.
+    pub fn push_mux(&mut self, s: GateIndex, x0: GateIndex, x1: GateIndex) -> GateIndex {
+        self.0.push_mux(s, x0, x1)
+    }
+
+    /// See `CircuitBuilder::push_adder`.
+    pub fn push_adder(
+        &mut self,
+        x: GateIndex,
+        y: GateIndex,
+        carry: GateIndex,
+    ) -> (GateIndex, GateIndex) {
+        self.0.push_adder(x, y, carry)
+    }
+
+    /// See `CircuitBuilder::push_condswap`.
+    pub fn push_condswap(
+        &mut self,
+        s: GateIndex,
+        x: GateIndex,
+        y: GateIndex,
+    ) -> (GateIndex, GateIndex) {
+        self.0.push_condswap(s, x, y)
+    }
+
+    /// See `CircuitBuilder::push_addition_circuit`.
+    pub fn push_addition_circuit(
+        &mut self,
+        x: &[GateIndex],
+        y: &[GateIndex],
+    ) -> (Vec<GateIndex>, GateIndex, GateIndex) {
+        self.0.push_addition_circuit(x, y)
+    }
+
+    /// See `CircuitBuilder::push_negation_circuit`.
+    pub fn push_negation_circuit(&mut self, x: &[GateIndex]) -> Vec<GateIndex> {
+        self.0.push_negation_circuit(x)
+    }
+
+    /// See `CircuitBuilder::push_subtraction_circuit`.
+    pub fn push_subtraction_circuit(
+        &mut self,
+        x: &[GateIndex],
+        y: &[GateIndex],
+        is_signed: bool,
+    ) -> (Vec<GateIndex>, GateIndex) {
+        self.0.push_subtraction_circuit(x, y, is_signed)
+    }
+
+    /// See `CircuitBuilder::push_unsigned_division_circuit`.
+    pub fn push_unsigned_division_circuit(
+        &mut self,
+        x: &[GateIndex],
+        y: &[GateIndex],
+    ) -> (Vec<GateIndex>, Vec<GateIndex>) {
+        self.0.push_unsigned_division_circuit(x, y)
+    }
+
+    /// See `CircuitBuilder::push_comparator_circuit`.
+    pub fn push_comparator_circuit(
+        &mut self,
+        bits: usize,
+        x: &[GateIndex],
+        is_x_signed: bool,
+        y: &[GateIndex],
+        is_y_signed: bool,
+    ) -> (GateIndex, GateIndex) {
+        self.0
+            .push_comparator_circuit(bits, x, is_x_signed, y, is_y_signed)
+    }
+
+    /// See `CircuitBuilder::push_gt_circuit`.
+    pub fn push_gt_circuit(&mut self, bits: usize, x: &[GateIndex], y: &[GateIndex]) -> GateIndex {
+        self.0.push_gt_circuit(bits, x, y)
+    }
+
+    /// See `CircuitBuilder::push_sorter`.
+    pub fn push_sorter(
+        &mut self,
+        bits: usize,
+        x: &[GateIndex],
+        y: &[GateIndex],
+    ) -> (Vec<GateIndex>, Vec<GateIndex>) {
+        self.0.push_sorter(bits, x, y)
+    }
+
+    /// See `CircuitBuilder::push_bitonic_merger`.
+    pub fn push_bitonic_merger(
+        &mut self,
+        bits: usize,
+        ascending: bool,
+        bitonic: &mut [Vec<GateIndex>],
+    ) {
+        self.0.push_bitonic_merger(bits, ascending, bitonic)
+    }
+
+    /// See `CircuitBuilder::push_bitonic_sorter`.
+    pub fn push_bitonic_sorter(&mut self, bits: usize, input: &mut [Vec<GateIndex>]) {
+        self.0.push_bitonic_sorter(bits, input)
+    }
+
+    /// See `CircuitBuilder::push_panic_if`; `reason` is 1 (overflow), 2 (div by zero) or
+    /// 3 (out of bounds).
+    pub fn push_panic_if(&mut self, cond: GateIndex, reason: usize, meta: MetaInfo) {
+        let reason = match reason {
+            1 => PanicReason::Overflow,
+            2 => PanicReason::DivByZero,
+            _ => PanicReason::OutOfBounds,
+        };
+        self.0.push_panic_if(cond, reason, meta)
+    }
+
+    /// See `CircuitBuilder::peek_panic`.
+    pub fn peek_panic(&self) -> PanicSnapshot {
+        PanicSnapshot(self.0.peek_panic().clone())
+    }
+
+    /// See `CircuitBuilder::replace_panic_with`.
+    pub fn replace_panic_with(&mut self, p: PanicSnapshot) -> PanicSnapshot {
+        PanicSnapshot(self.0.replace_panic_with(p.0))
+    }
+
+    /// See `CircuitBuilder::mux_panic`.
+    pub fn mux_panic(
+        &mut self,
+        condition: GateIndex,
+        t: &PanicSnapshot,
+        f: &PanicSnapshot,
+    ) -> PanicSnapshot {
+        PanicSnapshot(self.0.mux_panic(condition, &t.0, &f.0))
+    }
+
+    /// See `CircuitBuilder::build`.
+    pub fn build(self, output_gates: Vec<GateIndex>) -> Circuit {
+        self.0.build(output_gates)
+    }
+}
